@@ -615,6 +615,15 @@ def fam_zoo(tier, seed):
             add("ancs", [(N - 12, N - 9), (N - 16, N - 13)], T_int(8), array={"k": 2, "stride": 8})
         if N >= 32:
             add("as16", [(N - 32, N - 17)], T_int(16), array={"k": 2, "stride": 16})
+        # arrays that tile the whole base (the "byte view" shape and its relatives)
+        for w in (1, 2, 3, 4, 5, 8, 12, 16, 32, 64):
+            if N % w == 0 and 2 <= N // w <= 128 and N // w * w == N:
+                K = N // w
+                if w == 1:
+                    add("tb", [(0, 0)], T_bool(), array={"k": K, "stride": None})
+                add("tu", [(0, w - 1)], T_uint(w), array={"k": K, "stride": w if K % 2 else None})
+                if is_native(w):
+                    add("ts", [(0, w - 1)], T_int(w), array={"k": K, "stride": None})
         # custom types at the top
         if N >= 2:
             add("cx", [(N - 2, top)], T_enum("ZX2", 2, True))
@@ -930,6 +939,15 @@ def fam_enum(tier, seed):
     out.append(mk_enum("en_cond", "Cnd8", 8, [0, 255, 7], exh="conditional", cfgs={2: "off"}))
     out.append(mk_enum("en_cond", "Cnd16", 16, [0, 65535, 7], exh="conditional"))
     out.append(mk_enum("en_cond", "Cnd3", 3, list(range(8)) + [7], exh="conditional", cfgs={7: "on", 8: "off"}))
+    # the compiled-out twin declared *before* the live variant with the same discriminant
+    out.append(mk_enum("en_cond", "Cnd2c", 2, [0, 1, 1, 3, 3], exh="conditional", cfgs={1: "off", 2: "on", 3: "off", 4: "on"}))
+    out.append(mk_enum("en_cond", "Cnd1c", 1, [1, 1, 0], exh="conditional", cfgs={0: "off", 1: "on"}))
+    e = mk_enum("en_cond", "Cnd8c", 8, [0, 17, 17, 200, 200, 200], exh="conditional", cfgs={1: "off", 2: "on", 3: "off", 4: "off", 5: "on"})
+    for v, lit in zip(e["variants"], ["0", "0x11", "17", "200", "0xC8", "0b1100_1000"]):
+        v["discr_lit"] = lit
+    out.append(e)
+    e = mk_enum("en_cond", "Cnd12c", 12, [4095, 4095, 7], exh="conditional", cfgs={0: "off", 1: "on"})
+    out.append(e)
     for e in out:
         add_enum_consts(e)
     return out
@@ -1125,6 +1143,32 @@ def fam_acc(tier, seed):
     # enum-typed
     e = mk_enum(mod, "AE", 2, [0, 1, 2, 3])
     out.append(e)
+    o = mk_enum(mod, "AO", 3, [1, 4, 6])
+    inner = struct(mod, "AIn", 4, [field("x", [(0, 3)], T_uint(4))], family="ACC")
+    out += [o, inner]
+    more = {
+        "optenum": lambda a, n: field("f%d" % n, [(4 * n, 4 * n + 2)], T_enum("AO", 3, False), access=a),
+        "optenum_arr": lambda a, n: field("f%d" % n, [(8 * n, 8 * n + 2)], T_enum("AO", 3, False), access=a, array={"k": 2, "stride": 4}),
+        "enum_arr": lambda a, n: field("f%d" % n, [(8 * n, 8 * n + 1)], T_enum("AE", 2, True), access=a, array={"k": 3, "stride": None}),
+        "nested": lambda a, n: field("f%d" % n, [(4 * n, 4 * n + 3)], T_nested("AIn", 4), access=a),
+        "bool_arr": lambda a, n: field("f%d" % n, [(8 * n, 8 * n)], T_bool(), access=a, array={"k": 4, "stride": 2}),
+        "signed_arr": lambda a, n: field("f%d" % n, [(16 * n, 16 * n + 7)], T_int(8), access=a, array={"k": 2, "stride": None}),
+        "nc_arr": lambda a, n: field("f%d" % n, [(8 * n, 8 * n), (8 * n + 2, 8 * n + 2)], T_uint(2), access=a, array={"k": 2, "stride": 4}),
+        "nc_enum": lambda a, n: field("f%d" % n, [(8 * n + 4, 8 * n + 4), (8 * n, 8 * n)], T_enum("AE", 2, True), access=a),
+        "nc_optenum": lambda a, n: field("f%d" % n, [(8 * n + 4, 8 * n + 5), (8 * n, 8 * n)], T_enum("AO", 3, False), access=a),
+        "u1": lambda a, n: field("f%d" % n, [(2 * n, 2 * n)], T_uint(1), access=a),
+        "native": lambda a, n: field("f%d" % n, [(16 * n, 16 * n + 15)], T_uint(16), access=a),
+    }
+    for shape, mk in more.items():
+        fs = [mk(a, n) for n, a in enumerate(["r", "w", "rw", ""])]
+        out.append(struct(mod, "Acc_%s" % shape, 64, fs, family="ACC"))
+        out.append(struct(mod, "AccD_%s" % shape, 64, fs, default={"form": "=", "value": 0x5A5A5A5A_0F0F0F0F}, family="ACC"))
+    # orders other than r,w,rw,none and mixed kinds in one struct
+    mixed = [field("a", [(0, 2)], T_enum("AO", 3, False), access="w"), field("b", [(3, 3)], T_bool(), access=""), field("c", [(4, 7)], T_uint(4), access="r"),
+             field("d", [(8, 9)], T_enum("AE", 2, True), access=""), field("e", [(10, 12)], T_enum("AO", 3, False), access=""),
+             field("f", [(16, 23)], T_int(8), access="w"), field("g", [(24, 27)], T_nested("AIn", 4), access="w")]
+    out.append(struct(mod, "Acc_mixed", 32, mixed, family="ACC"))
+    out.append(struct(mod, "AccD_mixed", 32, mixed, default={"form": "=", "value": 0xDEADBEEF}, family="ACC"))
     fs = [field("f%d" % n, [(2 * n, 2 * n + 1)], T_enum("AE", 2, True), access=a) for n, a in enumerate(["r", "w", "rw", ""])]
     out.append(struct(mod, "Acc_enum", 8, fs, family="ACC"))
     out.append(struct(mod, "AccD_enum", 8, fs, default={"form": "=", "value": 0xA5}, family="ACC"))
@@ -1177,6 +1221,11 @@ def fam_dbg(tier, seed):
     ], debug=True, family="DBG"))
     out.append(struct(mod, "DbgAlias2", 8, [field("a", [(0, 7)], T_uint(8)), field("b", [(0, 7)], T_int(8)), field("c", [(0, 7)], T_uint(8), access="r")],
                       default={"form": "=", "value": 0x5A}, debug=True, family="DBG"))
+    out.append(struct(mod, "DbgNames", 32, [
+        field("_rsvd", [(0, 2)], T_uint(3)), field("__x", [(3, 3)], T_bool()), field("f0", [(4, 7)], T_uint(4)), field("x_", [(8, 15)], T_int(8)),
+        field("_", [(16, 16)], T_bool(), access="r") if False else field("_busy", [(16, 16)], T_bool(), access="r"),
+        field("r#loop", [(17, 19)], T_uint(3)), field("a_very_long_field_name_with_many_parts", [(20, 23)], T_uint(4)), field("raw_value_", [(24, 31)], T_uint(8)),
+    ], debug=True, family="DBG"))
     # arbitrary base with debug
     out.append(struct(mod, "Dbg24", 24, [field("a", [(0, 11)], T_uint(12)), field("r#fn", [(23, 23)], T_bool())], debug=True, family="DBG"))
     # zero fields
